@@ -376,6 +376,31 @@ func (c *Ctx) errflowFunc(f *ssa.Function, exc map[string]string) {
 					if consultsError(ev) {
 						continue
 					}
+					// a fallback that succeeded: after this failure another fallible call was made and ITS error is
+					// known to be nil here (try the raw form, then the user-friendly one): nothing is swallowed, the
+					// second attempt's success is what is reported
+					recovered := false
+					for _, f2 := range factsAt(f, r.Block()) {
+						b2, ok := f2.Cond.(*ssa.BinOp)
+						if !ok || (b2.Op != token.NEQ && b2.Op != token.EQL) {
+							continue
+						}
+						var e2 ssa.Value
+						if isNilConst(b2.Y) && isErrorType(b2.X.Type()) {
+							e2 = b2.X
+						} else if isNilConst(b2.X) && isErrorType(b2.Y.Type()) {
+							e2 = b2.Y
+						}
+						if e2 == nil || e2 == ev || (b2.Op == token.NEQ) == f2.Truth {
+							continue // not an error value, the same one, or not known nil
+						}
+						if in, ok := e2.(ssa.Instruction); ok && in.Block() != nil && edgeDominates(f, ft.Edge, in.Block()) {
+							recovered = true
+						}
+					}
+					if recovered {
+						continue
+					}
 					key := fmt.Sprintf("%s R-swallow return nil under %s != nil", fnName(f), shape(ev, 2))
 					if why, ok := excLookupS(exc, key); ok {
 						c.exc("E2.R-swallow", key, r.Pos(), why)
